@@ -35,6 +35,14 @@ pub enum DOp {
     WriteFront,
     WriteBack,
     WriteAt(usize),
+    /// spare = deque.clone()
+    CloneToSpare,
+    /// spare.clone_from(&deque) (the spare keeps whatever state it had)
+    CloneFromIntoSpare,
+    /// the spare becomes the deque under test and vice versa
+    SwapWithSpare,
+    /// deque = SlidingDeque::from(container holding the same items)
+    FromContainer,
 }
 
 const SWEEP_ALPHABET: [DOp; 10] = [
@@ -58,6 +66,7 @@ fn dop_json(op: &DOp) -> Json {
 }
 
 struct DequeRun {
+    spare_ops: u64,
     slides: u64,
     nonzero_prefix: u64,
     max_len: usize,
@@ -72,10 +81,12 @@ fn run_deque_case<C>(
     run: &mut DequeRun,
 ) -> Result<(), (Vec<&'static str>, String, String)>
 where
-    C: PushTruncateContainer<Item = u32> + Clone + Default,
+    C: PushTruncateContainer<Item = u32> + Clone + Default + std::iter::FromIterator<u32>,
 {
     let mut real: SlidingDeque<C> = SlidingDeque::new();
     let mut model: VecDeque<u32> = VecDeque::new();
+    let mut spare: SlidingDeque<C> = SlidingDeque::new();
+    let mut spare_model: VecDeque<u32> = VecDeque::new();
     let mut next = 1u32;
 
     for (step, op) in ops.iter().enumerate() {
@@ -137,6 +148,25 @@ where
                         return Err("back_mut presence differs".into());
                     }
                 }
+                DOp::CloneToSpare => {
+                    spare = real.clone();
+                    spare_model = model.clone();
+                    run.spare_ops += 1;
+                }
+                DOp::CloneFromIntoSpare => {
+                    spare.clone_from(&real);
+                    spare_model = model.clone();
+                    run.spare_ops += 1;
+                }
+                DOp::SwapWithSpare => {
+                    std::mem::swap(&mut real, &mut spare);
+                    std::mem::swap(&mut model, &mut spare_model);
+                    run.spare_ops += 1;
+                }
+                DOp::FromContainer => {
+                    real = SlidingDeque::from(model.iter().copied().collect::<C>());
+                    run.spare_ops += 1;
+                }
                 DOp::WriteAt(i) => {
                     let len = real.len();
                     if len != model.len() {
@@ -186,6 +216,15 @@ where
             }
             if real.back() != model.back() {
                 return Err(format!("back {:?} != {:?}", real.back(), model.back()));
+            }
+            // the spare (a clone taken earlier) is not disturbed by operations on the other one
+            let sview: &[u32] = &spare;
+            if !sview.iter().eq(spare_model.iter()) || spare.front() != spare_model.front() || spare.back() != spare_model.back() {
+                return Err(format!("spare deque (a clone) holds {:?}, its model {:?}", sview, spare_model));
+            }
+            let (sp, sc) = spare.verif_waste();
+            if sp > sc / 2 || sc != sp + spare_model.len() {
+                return Err(format!("spare deque (a clone): consumed prefix {} of container length {} with {} live items", sp, sc, spare_model.len()));
             }
             Ok(real.verif_waste())
         });
@@ -268,15 +307,15 @@ fn gen_random_deque_ops(rng: &mut Rng, n: usize) -> Vec<DOp> {
     let mut ops = Vec::with_capacity(n);
     let mut len_est: usize = 0;
     let mut phase_left = 0usize;
-    let mut weights = [40u32, 20, 10, 8, 4, 2, 1, 3, 4, 4, 4];
+    let mut weights = [40u32, 20, 10, 8, 4, 2, 1, 3, 4, 4, 4, 1, 1, 1, 1];
     while ops.len() < n {
         if phase_left == 0 {
             phase_left = rng.range(5, 80);
             let grow = rng.below(3);
             weights = match grow {
-                0 => [50, 10, 5, 5, 3, 1, 1, 3, 4, 4, 4],
-                1 => [20, 30, 15, 10, 6, 2, 1, 3, 4, 4, 4],
-                _ => [30, 20, 20, 5, 5, 3, 2, 5, 4, 4, 4],
+                0 => [50, 10, 5, 5, 3, 1, 1, 3, 4, 4, 4, 1, 1, 1, 1],
+                1 => [20, 30, 15, 10, 6, 2, 1, 3, 4, 4, 4, 1, 2, 2, 1],
+                _ => [30, 20, 20, 5, 5, 3, 2, 5, 4, 4, 4, 2, 2, 2, 1],
             };
         }
         phase_left -= 1;
@@ -296,7 +335,11 @@ fn gen_random_deque_ops(rng: &mut Rng, n: usize) -> Vec<DOp> {
             7 => DOp::Slide,
             8 => DOp::WriteFront,
             9 => DOp::WriteBack,
-            _ => DOp::WriteAt(rng.usize_below(64)),
+            10 => DOp::WriteAt(rng.usize_below(64)),
+            11 => DOp::CloneToSpare,
+            12 => DOp::CloneFromIntoSpare,
+            13 => DOp::SwapWithSpare,
+            _ => DOp::FromContainer,
         };
         match op {
             DOp::Push => len_est += 1,
@@ -334,7 +377,7 @@ pub fn run_c15(ctx: &mut Ctx) {
                     x /= base;
                 }
                 ctx.begin_case(idx, || deque_case_json("sweep", backing, idx, &ops));
-                let mut run = DequeRun { slides: 0, nonzero_prefix: 0, max_len: 0, heap_transition: false };
+                let mut run = DequeRun { spare_ops: 0, slides: 0, nonzero_prefix: 0, max_len: 0, heap_transition: false };
                 let res = run_deque_backing(backing, &ops, &mut run);
                 ctx.ops += ops.len() as u64;
                 record_deque(ctx, "sweep", backing, idx, &ops, &run, res, i);
@@ -372,7 +415,7 @@ pub fn run_c15(ctx: &mut Ctx) {
         };
         let ops = gen_random_deque_ops(&mut rng, n);
         ctx.begin_case(idx, || deque_case_json("random", backing, idx, &ops));
-        let mut run = DequeRun { slides: 0, nonzero_prefix: 0, max_len: 0, heap_transition: false };
+        let mut run = DequeRun { spare_ops: 0, slides: 0, nonzero_prefix: 0, max_len: 0, heap_transition: false };
         let res = run_deque_backing(backing, &ops, &mut run);
         ctx.ops += ops.len() as u64;
         let ops = match &res {
@@ -381,7 +424,7 @@ pub fn run_c15(ctx: &mut Ctx) {
                 crate::ctx::shrink_vec(
                     &ops,
                     |cand| {
-                        let mut r = DequeRun { slides: 0, nonzero_prefix: 0, max_len: 0, heap_transition: false };
+                        let mut r = DequeRun { spare_ops: 0, slides: 0, nonzero_prefix: 0, max_len: 0, heap_transition: false };
                         matches!(run_deque_backing(backing, cand, &mut r), Err((_, s, _)) if s == sig)
                     },
                     3000,
@@ -391,7 +434,7 @@ pub fn run_c15(ctx: &mut Ctx) {
         };
         let res = match res {
             Err(_) => {
-                let mut r = DequeRun { slides: 0, nonzero_prefix: 0, max_len: 0, heap_transition: false };
+                let mut r = DequeRun { spare_ops: 0, slides: 0, nonzero_prefix: 0, max_len: 0, heap_transition: false };
                 run_deque_backing(backing, &ops, &mut r)
             }
             ok => ok,
@@ -420,6 +463,7 @@ fn record_deque(
     sweep_code: u64,
 ) {
     ctx.feature_n("c15.slides_observed", run.slides);
+    ctx.feature_n("c15.clone_clone_from_swap_from_container_ops", run.spare_ops);
     ctx.feature_n("c15.steps_with_nonzero_prefix", run.nonzero_prefix);
     if run.heap_transition {
         ctx.feature("c15.smallvec_inline_to_heap");
@@ -540,6 +584,8 @@ pub enum SOp {
     PushNext,
     PushSkip,
     PushErased,
+    /// push of a key that is not strictly greater: must panic and leave the deque as it was
+    PushBad(u32),
     Remove(u32),
     PopFirst,
     PopLast,
@@ -571,20 +617,38 @@ struct SortedRun {
     found: u64,
     bad_push_panics: u64,
     max_live: usize,
+    prefilled: u64,
+    rejected_pushes: u64,
 }
 
 fn run_sorted_case<I, C>(
     ops: &[SOp],
+    prefill: u32,
     run: &mut SortedRun,
 ) -> Result<(), (Vec<&'static str>, String, String)>
 where
     I: Conv,
-    C: PushTruncateContainer<Item = I> + Clone + Default,
+    C: PushTruncateContainer<Item = I> + Clone + Default + std::iter::FromIterator<I>,
     (): SortedDequeMarker<I, Key = I::Key> + Clone,
 {
-    let mut real: SortedDeque<C, ()> = Default::default();
+    // Either the Default deque, or one adopted from a container that already
+    // holds `prefill` present items with increasing keys (SortedDeque::new).
     let mut model: BTreeMap<u32, I> = BTreeMap::new();
     let mut max_pushed = 0u32;
+    let mut real: SortedDeque<C, ()> = if prefill == 0 {
+        Default::default()
+    } else {
+        let mut items: Vec<I> = Vec::new();
+        for j in 0..prefill {
+            let key = max_pushed + 1 + (j % 2);
+            let item = I::make(key, val_for(key));
+            items.push(item);
+            model.insert(key, item);
+            max_pushed = key;
+        }
+        run.prefilled += 1;
+        SortedDeque::new(items.into_iter().collect::<C>(), ())
+    };
     // keys ever removed from the middle and not yet physically dropped is an
     // implementation detail; we only count mid removals as a feature.
 
@@ -606,6 +670,19 @@ where
                     // Must be a no-op whatever the key (even a smaller one).
                     let key = if step % 2 == 0 { max_pushed + 1 } else { max_pushed.saturating_sub(1) };
                     real.push_back_or_panic(I::erased(key));
+                }
+                SOp::PushBad(back) => {
+                    if let Some((last_key, last_item)) = model.iter().next_back().map(|(k, v)| (*k, *v)) {
+                        // the last item itself, or a smaller key (under whole-item
+                        // ordering the same key with a larger value would be a valid push)
+                        let key = last_key.saturating_sub(back % 3);
+                        let item = if key == last_key { last_item } else { I::make(key, val_for(key)) };
+                        let r = catch(|| real.push_back_or_panic(item));
+                        if r.is_ok() {
+                            return Err(format!("push_back_or_panic({:?}) after last key {} did not panic", item, last_key));
+                        }
+                        run.rejected_pushes += 1;
+                    }
                 }
                 SOp::Remove(k) => {
                     let expected = model.remove(&k);
@@ -748,11 +825,20 @@ fn run_sorted_backing(
     ops: &[SOp],
     run: &mut SortedRun,
 ) -> Result<(), (Vec<&'static str>, String, String)> {
+    run_sorted_backing_prefilled(backing, ops, 0, run)
+}
+
+fn run_sorted_backing_prefilled(
+    backing: usize,
+    ops: &[SOp],
+    prefill: u32,
+    run: &mut SortedRun,
+) -> Result<(), (Vec<&'static str>, String, String)> {
     match backing {
-        0 => run_sorted_case::<PairItem, Vec<PairItem>>(ops, run),
-        1 => run_sorted_case::<PairItem, SmallVec<[PairItem; 4]>>(ops, run),
-        2 => run_sorted_case::<WholeItem, Vec<WholeItem>>(ops, run),
-        _ => run_sorted_case::<WholeItem, SmallVec<[WholeItem; 2]>>(ops, run),
+        0 => run_sorted_case::<PairItem, Vec<PairItem>>(ops, prefill, run),
+        1 => run_sorted_case::<PairItem, SmallVec<[PairItem; 4]>>(ops, prefill, run),
+        2 => run_sorted_case::<WholeItem, Vec<WholeItem>>(ops, prefill, run),
+        _ => run_sorted_case::<WholeItem, SmallVec<[WholeItem; 2]>>(ops, prefill, run),
     }
 }
 
@@ -772,13 +858,14 @@ fn gen_random_sorted_ops(rng: &mut Rng, n: usize) -> Vec<SOp> {
     // (pushes dominate: many live items), or middle-heavy (a large population
     // riddled with removals anywhere in the live range, few pops).
     let profile = rng.below(4);
-    let weights: [u32; 7] = match profile {
-        0 | 1 => [30, 8, 4, 30, 10, 10, 1],
-        2 => [50, 10, 3, 25, 4, 4, 1],
-        _ => [40, 6, 2, 45, 2, 2, 1],
+    let weights: [u32; 8] = match profile {
+        0 | 1 => [30, 8, 4, 30, 10, 10, 1, 3],
+        2 => [50, 10, 3, 25, 4, 4, 1, 2],
+        _ => [40, 6, 2, 45, 2, 2, 1, 2],
     };
     for _ in 0..n {
         let op = match rng.weighted(&weights) {
+            7 => SOp::PushBad(rng.below(3) as u32),
             0 => SOp::PushNext,
             1 => SOp::PushSkip,
             2 => SOp::PushErased,
@@ -881,9 +968,11 @@ pub fn run_c16(ctx: &mut Ctx) {
             rng.range(random_ops / 4, random_ops)
         };
         let ops = gen_random_sorted_ops(&mut rng, n);
-        ctx.begin_case(idx, || sorted_case_json("random", backing, idx, &ops));
+        // one history in four starts from SortedDeque::new(prefilled container)
+        let prefill: u32 = if rng.chance(1, 4) { rng.range(1, 40) as u32 } else { 0 };
+        ctx.begin_case(idx, || sorted_case_json("random", backing, idx, &ops).with("prefilled_items", Json::U(prefill as u64)));
         let mut run = SortedRun::default();
-        let res = run_sorted_backing(backing, &ops, &mut run);
+        let res = run_sorted_backing_prefilled(backing, &ops, prefill, &mut run);
         ctx.ops += ops.len() as u64;
         let ops = match &res {
             Err((_, sig, _)) if !ctx.args.miri() => {
@@ -892,7 +981,7 @@ pub fn run_c16(ctx: &mut Ctx) {
                     &ops,
                     |cand| {
                         let mut r = SortedRun::default();
-                        matches!(run_sorted_backing(backing, cand, &mut r), Err((_, s, _)) if s == sig)
+                        matches!(run_sorted_backing_prefilled(backing, cand, prefill, &mut r), Err((_, s, _)) if s == sig)
                     },
                     3000,
                 )
@@ -902,7 +991,7 @@ pub fn run_c16(ctx: &mut Ctx) {
         let res = match res {
             Err(_) => {
                 let mut r = SortedRun::default();
-                run_sorted_backing(backing, &ops, &mut r)
+                run_sorted_backing_prefilled(backing, &ops, prefill, &mut r)
             }
             ok => ok,
         };
@@ -929,6 +1018,8 @@ fn record_sorted(
     ctx.feature_n("c16.pops", run.pops);
     ctx.feature_n("c16.successful_finds", run.found);
     ctx.feature_n("c16.bad_push_panics_observed", run.bad_push_panics);
+    ctx.feature_n("c16.rejected_pushes_then_history_continues", run.rejected_pushes);
+    ctx.feature_n("c16.histories_starting_from_SortedDeque_new_of_a_filled_container", run.prefilled);
     ctx.maximum("c16.max_live_items", run.max_live as u64);
     ctx.maximum("c16.max_middle_removals_in_one_history", run.mid_removals);
     if run.mid_removals >= 32 {
